@@ -8,10 +8,13 @@ code that exists, so where the code does not do what the property says the full-
 is false of the model; then the `_partial` theorem carries exactly the hypothesis that excludes the
 defect and a witness theorem proves the negation of the full statement:
 
-  D16  blind `\'`→`'` before strconv.Unquote        D18  keyword + newline: position after the newline
-  D19  constant after `=`/`:` gets that position     D20  service parent gets the position of `extends`
-  D61  Info.Pos of a scalar constant = last equal value   D62  `/**/ … */` swallowed as a docstring
-  D63  end-of-input error after blanks: column ≤ 0
+  D18  keyword + newline: position after the newline   D19  constant after `=`/`:` gets that position
+  D20  service parent gets the position of `extends`   D61  Info.Pos of a scalar constant = last equal value
+  D62  `/**/ … */` swallowed as a docstring            D63  end-of-input error after blanks: column ≤ 0
+
+Repaired in /repo and therefore stated at full strength here (witnesses stay in corpus/C11):
+  D16/D66 (b668604)  literals are unquoted one escape sequence at a time
+  D65     (587ec42)  raw bytes that are not well-formed UTF-8 are kept
 
 Level: proof, partial. What the theorems do NOT cover (observed by the correspondence harness on
 the implementation instead): that the recursion fuel of the model parser is never exhausted
@@ -66,44 +69,32 @@ example : (parse b!"struct A {}").isProgram = true := by decide
 theorem strconv_unquote_quote (s : Bytes) : strconvUnquote (quoteDouble s) = some s :=
   strconvUnquote_quoteDouble s
 
-/-- `UnquoteDoubleQuoted ∘ quoteDouble = id` — PARTIAL: for every byte string that has no
-backslash directly followed by an apostrophe; that is exactly the shape D16 damages
-(`unquote_bug_D16`). -/
-theorem unquote_quote_double_partial (s : Bytes) (h : noPair 39 s = true) :
-    unquoteDouble (quoteDouble s) = some s :=
-  unquoteDouble_quoteDouble s h
+/-- `UnquoteDoubleQuoted ∘ quoteDouble = id` for EVERY byte string (full strength since the
+repair of D16: the literal is rewritten one escape sequence at a time). -/
+theorem unquote_quote_double (s : Bytes) : unquoteDouble (quoteDouble s) = some s :=
+  unquoteDouble_quoteDouble s
 
-/-- The exclusion is exact: the round trip of the natural `"`-printer holds IF AND ONLY IF the
-string has no backslash directly before an apostrophe (otherwise `UnquoteDoubleQuoted` returns an
-error). -/
-theorem unquote_quote_double_iff (s : Bytes) :
-    unquoteDouble (quoteDouble s) = some s ↔ noPair 39 s = true :=
-  unquoteDouble_quoteDouble_iff s
+/-- `UnquoteSingleQuoted ∘ quoteSingle = id` for EVERY byte string. -/
+theorem unquote_quote_single (s : Bytes) : unquoteSingle (quoteSingle s) = some s :=
+  unquoteSingle_quoteSingle s
 
-/-- `UnquoteSingleQuoted ∘ quoteSingle = id` — PARTIAL: for every byte string that has no
-backslash directly followed by a double quote (D16 again, mirrored). -/
-theorem unquote_quote_single_partial (s : Bytes) (h : noPair 34 s = true) :
-    unquoteSingle (quoteSingle s) = some s :=
-  unquoteSingle_quoteSingle s h
-
-/-- With the printers that escape both quote characters the round trip holds for EVERY byte
-string, D16 notwithstanding (the damage needs an *unescaped* other quote after `\\`). -/
+/-- … and likewise for the printers that escape both quote characters. -/
 theorem unquote_quote_double_safe (s : Bytes) : unquoteDouble (quoteDoubleSafe s) = some s :=
   unquoteDouble_quoteDoubleSafe s
 
 theorem unquote_quote_single_safe (s : Bytes) : unquoteSingle (quoteSingleSafe s) = some s :=
   unquoteSingle_quoteSingleSafe s
 
-/-- D16: the lexically valid literal `"a\\'b"` (a, escaped backslash, apostrophe, b) — which is
-what the natural printer writes for the 4-byte string `a\'b`, and which `strconv.Unquote` alone
-reads correctly — is rejected by `UnquoteDoubleQuoted`; likewise `'a\\"b'`. -/
-theorem unquote_bug_D16 :
-    quoteDouble b!"a\\'b" = b!"\"a\\\\'b\"" ∧ strconvUnquote b!"\"a\\\\'b\"" = some b!"a\\'b" ∧
-    unquoteDouble b!"\"a\\\\'b\"" = none ∧ unquoteSingle b!"'a\\\\\"b'" = none := by decide
-
-example : noPair 39 b!"it's \\ fine" = true ∧ unquoteDouble (quoteDouble b!"it's \\ fine") = some b!"it's \\ fine" := by
+/-- The former witnesses now read correctly. D16: `"a\\'b"` and `'a\\"b'` (escaped backslash
+before the other quote) are the 4-byte strings `a\'b` / `a\"b`. D66: inside '…' a quote written
+numerically is that quote. D65: a raw byte 0xFF stays 0xFF. -/
+theorem unquote_repaired_D16_D66_D65 :
+    unquoteDouble b!"\"a\\\\'b\"" = some b!"a\\'b" ∧ unquoteSingle b!"'a\\\\\"b'" = some b!"a\\\"b" ∧
+    unquoteSingle b!"'\\x27'" = some b!"'" ∧ unquoteSingle b!"'\\042'" = some b!"\"" ∧
+    unquoteDouble [34, 0xff, 34] = some [0xff] ∧ unquoteSingle [39, 0xc3, 0xa9, 0xc3, 39] = some [0xc3, 0xa9, 0xc3] := by
   decide
-example : noPair 39 b!"a\\'b" = false := by decide
+
+example : quoteDouble b!"a\\'b" = b!"\"a\\\\'b\"" ∧ quoteSingle b!"it's" = b!"'it\\'s'" := by decide
 
 /-! ### (c) token positions -/
 
@@ -229,11 +220,11 @@ doubles plus the composition through the skip loop), and the grammar-level round
 (parse(render(ast)) against the printer's tree). -/
 
 /-- The scanner reads back every literal the natural `"`-printer writes as that LITERAL token,
-and stops at the closing quote whatever follows — PARTIAL: same exclusion as D16. -/
-theorem lex_literal_token_partial (s rest : Bytes) (h : noPair 39 s = true) :
+and stops at the closing quote whatever follows. -/
+theorem lex_literal_token (s rest : Bytes) :
     tokenRes 34 (quoteBody 34 false s ++ 34 :: rest) =
       .tok (.lit s) ((quoteBody 34 false s).length + 2) 0 :=
-  tokenRes_quoteDouble s rest h
+  tokenRes_quoteDouble s rest
 
 /-- The scanner reads back every non-negative int64 printed in decimal as that INTCONSTANT, when
 the next byte cannot continue a number (not a digit, `.`, `e`, `E`, `x`). -/
